@@ -356,6 +356,13 @@ def value_preserving_casts(ctx):
             keeps = (sf == st and wt >= wf) or (not sf and st and wt > wf)
             fn = strip_generics(mir.enclosing_fn(b)) if b.kind == 'closure' else b.nid
             why = CAST_OK.get((fn, fr, to))
+            if why is None and not keeps and b.kind == 'fn':
+                # a private helper called only from a listed function carries the arithmetic that was lifted out of it
+                owners = {f for (f, a_, b_) in CAST_OK if (a_, b_) == (fr, to)}
+                if owners and mirq.private_helper_of(mir, b, owners, depth=1):
+                    own = sorted(o for o in owners if any(c[0].nid.split('::{closure')[0] == o for c in mir.callers_index().get(b.nid, [])))
+                    if own:
+                        why = 'private helper of %s: %s' % (own[0].split('::')[-1], CAST_OK[(own[0], fr, to)])
             ok = keeps or why is not None
             r10.inst({'fn': fn, 'site': mirq.site(b, i, j), 'cast': '%s as %s' % (fr, to), 'value_preserving': keeps, 'listed': why is not None}, ok=ok, kind=(b.nid, i, j))
             if why is not None and not keeps:
